@@ -884,7 +884,7 @@ Proof.
       set (s1 := mkS (admin_only st) (total st) TSent (Some ByTimer) (wedged st) (exited st) (queue st)
                      (clients st) (tzero st) (leaked st) (zero_sends st) (log st)).
       assert (Hs : step st TimerFire = Some s1).
-      { unfold step. rewrite Hx, Et, Eq. reflexivity. }
+      { unfold step. rewrite Et, Eq. rewrite Hx at 1. reflexivity. }
       destruct (Hex s1 ByTimer) as (st' & Hr & Hy); auto; try discriminate.
       exists st'. split; auto. split; auto. simpl. rewrite Hs. exact Hr.
   - assert (Eq : exit_q st = Some ByTimer) by (apply B; auto).
@@ -1064,3 +1064,123 @@ Proof.
   { unfold step. rewrite Hx, Hn, Hp. reflexivity. }
   unfold depart. rewrite Hc. unf. auto.
 Qed.
+
+(** * shutdown_timeout = 0: the timer task dies at once *)
+
+Lemma tzero_no_timer : forall st, Inv st -> tzero st = true -> step st TimerFire = None.
+Proof.
+  intros st (_ & _ & (A & B & C & D & E & F & G & I & J & K & L)) Htz. unfold step.
+  destruct (exited st); auto. destruct (K Htz) as [H | H]; rewrite H; reflexivity.
+Qed.
+
+(** * Statements over reachable states (the forms exported by Props.v) *)
+
+Lemma r_idle_kicked : forall st i c, reachable st -> exited st = None -> admin_only st = true ->
+  nth_error (clients st) i = Some c -> ckind c = Normal -> cphase c = Idle ->
+  exists st', step st (Poll i) = Some st' /\ log st' = OKicked i :: log st /\
+              queue st' = queue st ++ [-1] /\ total st' = total st /\
+              exists c', nth_error (clients st') i = Some c' /\ cphase c' = Gone /\ counted c' = false.
+Proof. intros st i c H. apply idle_kicked. apply reachable_Inv. exact H. Qed.
+
+Lemma r_no_kick_before_sigint : forall st i, reachable st -> admin_only st = false -> step st (Poll i) = None.
+Proof. intros st i H. apply no_kick_before_sigint. apply reachable_Inv. exact H. Qed.
+
+Lemma r_kicked_only_idle : forall st e st' i, reachable st -> step st e = Some st' ->
+  log st' = OKicked i :: log st ->
+  e = Poll i /\ admin_only st = true /\
+  exists c, nth_error (clients st) i = Some c /\ cphase c = Idle /\ ckind c <> Admin.
+Proof. intros st e st' i H. apply kicked_only_idle. apply reachable_Inv. exact H. Qed.
+
+Lemma txn_finishes : forall st i c, nth_error (clients st) i = Some c -> ckind c = Normal -> cphase c = InTxn ->
+  step st (Poll i) = None /\
+  (exited st = None -> step st (Stmt i) = Some (with_log st (OServed i))) /\
+  (exited st = None -> exists st', step st (TxnEnd i) = Some st' /\ log st' = OServed i :: log st /\ queue st' = queue st) /\
+  (forall e st', step st e = Some st' ->
+     (exists c', nth_error (clients st') i = Some c' /\ cphase c' = InTxn /\ counted c' = counted c) \/
+     e = TxnEnd i \/ (exists h, e = Leave i h)).
+Proof.
+  intros st i c Hn Hk Hp. split; [| split; [| split]].
+  - eapply txn_not_polled; eauto. left; auto.
+  - intros Hx. eapply txn_served; eauto. left; auto.
+  - intros Hx. eapply txn_commit_served; eauto.
+  - intros e st' Hs. eapply txn_undisturbed; eauto.
+Qed.
+
+Lemma session_held_not_kicked : forall st i c, nth_error (clients st) i = Some c ->
+  cphase c = SessionHeld -> step st (Poll i) = None.
+Proof. intros. eapply txn_not_polled; eauto. right; auto. Qed.
+
+Lemma exit_condition : forall tz tr st x, run (init tz) tr = Some st -> exited st = Some x ->
+  match x with
+  | ByTerm => In Sigterm tr
+  | ByZero => In ExitDeliver tr /\
+              exists tr1 tr2 s1, tr = tr1 ++ DrainDeliver :: tr2 /\ run (init tz) (tr1 ++ [DrainDeliver]) = Some s1 /\
+                                 admin_only s1 = true /\ total s1 = 0
+  | ByTimer => In ExitDeliver tr /\ exists tr1 tr2, tr = tr1 ++ TimerFire :: tr2 /\ In Sigint tr1
+  end.
+Proof. intros tz tr st x Hr Hx. pose proof (exit_has_origin _ _ _ _ Hr Hx) as H. destruct x; exact H. Qed.
+
+Lemma r_all_left_exits : forall st, reachable st -> exited st = None -> wedged st = false ->
+  admin_only st = true -> ncounted (clients st) = 0 -> leaked st = 0 ->
+  exists k st', (k <= length (queue st))%nat /\ run st (repeat DrainDeliver k) = Some st' /\
+                (wedged st' = true \/
+                 exists x st'', x <> ByTerm /\ step st' ExitDeliver = Some st'' /\ exited st'' = Some x).
+Proof. intros st H. apply all_left_exits; auto. apply reachable_Inv. exact H. Qed.
+
+Lemma r_timer_forces_exit : forall st, reachable st -> exited st = None -> wedged st = false ->
+  admin_only st = true -> tzero st = false ->
+  exists tr st', (tr = [TimerFire; ExitDeliver] \/ tr = [ExitDeliver]) /\ run st tr = Some st' /\
+                 exists x, exited st' = Some x /\ x <> ByTerm.
+Proof. intros st H. apply timer_forces_exit. apply reachable_Inv. exact H. Qed.
+
+Lemma r_panic_leaks_counter : forall tr st st', reachable st -> 0 < leaked st -> no_pos (queue st) = true ->
+  forallb (fun e => negb (admits e)) tr = true -> run st tr = Some st' ->
+  zero_sends st' = zero_sends st /\ 0 < leaked st' /\ (queue st' = [] -> 0 < total st').
+Proof. intros tr st st' H. apply panic_leaks_counter. apply reachable_Inv. exact H. Qed.
+
+Lemma r_tzero_no_timer : forall st, reachable st -> tzero st = true -> step st TimerFire = None.
+Proof. intros st H. apply tzero_no_timer. apply reachable_Inv. exact H. Qed.
+
+(** * The wedge schedules *)
+
+(** W1: a client's -1 is still in flight when SIGINT arrives; it brings the count to zero (exit
+    message #1), then the queued 0 is delivered before the exit arm is polled. *)
+Definition wedge_inflight : list event :=
+  [Accept Normal TxnMode; AuthDone 0 true; DrainDeliver; Leave 0 Clean; Sigint; DrainDeliver; DrainDeliver; TimerFire].
+
+(** W2: nobody connected; after the zero a cancel request (+1, -1) is delivered first. *)
+Definition wedge_cancel : list event :=
+  [Sigint; DrainDeliver; Accept Canc TxnMode; AuthDone 0 true; Leave 0 Clean; DrainDeliver; DrainDeliver; TimerFire].
+
+Lemma wedge_witness : forall tr, (tr = wedge_inflight \/ tr = wedge_cancel) ->
+  exists st, run (init false) tr = Some st /\ wedged st = true /\ all_gone st = true /\ tmr st = TBlocked /\
+             total st = 0 /\ queue st = [] /\ exited st = None.
+Proof.
+  intros tr [-> | ->]; (eexists; split; [vm_compute; reflexivity | vm_compute; repeat split; reflexivity]).
+Qed.
+
+Lemma exit_liveness_refuted : exists tr st, run (init false) tr = Some st /\
+  all_gone st = true /\ tmr st = TBlocked /\ total st = 0 /\ queue st = [] /\
+  forall tr' st', run st tr' = Some st' -> exited st' = None.
+Proof.
+  destruct (wedge_witness wedge_inflight (or_introl eq_refl)) as (st & Hr & Hw & Hg & Ht & H0 & Hq & Hx).
+  exists wedge_inflight, st. repeat split; auto.
+  intros tr' st' Hr'. destruct (wedge_forever _ _ _ Hw Hx Hr'). auto.
+Qed.
+
+(** the guard under which the liveness theorems speak: the trace does not wedge *)
+Definition known_wedge (tz : bool) (tr : list event) : bool :=
+  match run (init tz) tr with Some st => wedged st | None => false end.
+
+Lemma exit_liveness_guarded : forall tz tr st, run (init tz) tr = Some st -> known_wedge tz tr = false ->
+  exited st = None -> admin_only st = true -> tzero st = false ->
+  exists tr' st', run st tr' = Some st' /\ exists x, exited st' = Some x /\ x <> ByTerm.
+Proof.
+  intros tz tr st Hr Hk Hx Ha Htz. unfold known_wedge in Hk. rewrite Hr in Hk.
+  destruct (timer_forces_exit st) as (tr' & st' & _ & Hr' & Hy); auto.
+  - apply reachable_Inv. exists tz, tr. exact Hr.
+  - eauto.
+Qed.
+
+Lemma known_wedge_refuted : exists tr, known_wedge false tr = true.
+Proof. exists wedge_inflight. vm_compute. reflexivity. Qed.
